@@ -24,6 +24,10 @@ type fsmInput struct {
 	dom  []int64
 	name string
 	cell bool // v is the address of a boolean variable kept in memory (its address is handed to a helper)
+	// cellMatch: which addresses are this cell (nil: exactly v) — a field of the receiver is addressed anew at
+	// every use
+	cellMatch func(addr ssa.Value) bool
+	cellBit   func(addr ssa.Value) int // several boolean fields of a local struct packed into one cell (see vsa.cellBit)
 }
 
 type fsmPoint struct {
@@ -159,6 +163,13 @@ func (m *fsm) build(byteVal ssa.Value, extra ...fsmInput) *fsm {
 	// rather than in a phi; it is an input like the others, its next value is the cell's content at the back edge
 	if cellV := boolStateCell(f, region); cellV != nil {
 		m.inputs = append(m.inputs, fsmInput{v: cellV, dom: []int64{0, 1}, name: cellV.Comment, cell: true})
+	} else if pc := packedFlagsCell(f, region); pc != nil {
+		// two or more flags gathered in a local struct: one memory cell whose value packs them (field k is bit k)
+		m.inputs = append(m.inputs, *pc)
+	} else if fc := fieldStateCell(c, f, header, region); fc != nil {
+		// the state kept in a field of the receiver, reset before the loop: a memory cell with the constants stored
+		// into it as its domain
+		m.inputs = append(m.inputs, *fc)
 	}
 	m.inputs = append(m.inputs, extra...)
 	if byteVal != nil {
@@ -365,6 +376,10 @@ func (m *fsm) run(region map[*ssa.BasicBlock]bool) bool {
 	if cellIdx >= 0 {
 		cv := m.inputs[cellIdx].v
 		a.isCell = func(addr ssa.Value) bool { return addr == cv }
+		if mf := m.inputs[cellIdx].cellMatch; mf != nil {
+			a.isCell = mf
+		}
+		a.cellBit = m.inputs[cellIdx].cellBit
 		a.startCell = make([]aval, n)
 		for k := 0; k < n; k++ {
 			a.startCell[k] = aval{true, m.points[k].vals[cellIdx]}
@@ -375,6 +390,10 @@ func (m *fsm) run(region map[*ssa.BasicBlock]bool) bool {
 	a.noInline = m.noInline
 	m.helperSy = nil
 	a.onInstr = func(in ssa.Instruction, set []bool) {
+		// a store into the state cell is a state change, not an effect
+		if st, ok := in.(*ssa.Store); ok && a.isCell != nil && a.isCell(st.Addr) {
+			return
+		}
 		// a result of an inlined helper stored back: what is stored depends on the return each point took
 		if st, ok := in.(*ssa.Store); ok {
 			if ex, ok := st.Val.(*ssa.Extract); ok {
@@ -761,7 +780,7 @@ func rulesFastaAutomaton(c *Ctx, r *Report) {
 	stateIdx := -1
 	for i, in := range m.inputs {
 		if in.name == "state" || (i != m.byteIn && len(in.dom) >= 3 && stateIdx < 0 && !strings.HasPrefix(in.name, "cond")) {
-			if _, isPhi := in.v.(*ssa.Phi); isPhi && len(in.dom) >= 3 {
+			if _, isPhi := in.v.(*ssa.Phi); (isPhi || in.cell) && len(in.dom) >= 3 {
 				stateIdx = i
 			}
 		}
@@ -828,6 +847,22 @@ func rulesFastaAutomaton(c *Ctx, r *Report) {
 					s0 = k
 				}
 			}
+		}
+	}
+	if in := m.inputs[stateIdx]; in.cell && in.cellMatch != nil {
+		// the state in a memory cell: the constant stored into it before the loop, on every path
+		nl := naturalLoop(m.header)
+		nReset := 0
+		instrs(f, func(ins ssa.Instruction) {
+			if st, ok := ins.(*ssa.Store); ok && in.cellMatch(st.Addr) && !nl[st.Block()] && st.Block().Dominates(m.header) {
+				if k, ok := cInt(constVal(st.Val)); ok {
+					s0 = k
+					nReset++
+				}
+			}
+		})
+		if nReset != 1 {
+			s0 = -1
 		}
 	}
 	if s0 < 0 || T[s0] == nil {
@@ -1406,6 +1441,32 @@ func fsmInitial(m *fsm, stateIdx []int) []int64 {
 				val, found = kv, true
 			}
 		case *ssa.Alloc:
+			if in.cellBit != nil {
+				// flags packed into one cell: zero, then the constant field stores made before the loop
+				for _, ref := range *v.Referrers() {
+					fa, ok := ref.(*ssa.FieldAddr)
+					if !ok {
+						continue
+					}
+					for _, r2 := range *fa.Referrers() {
+						st, ok := r2.(*ssa.Store)
+						if !ok || nl[st.Block()] {
+							continue
+						}
+						k, isC := st.Val.(*ssa.Const)
+						if !isC || k.Value == nil || k.Value.Kind() != constant.Bool || !st.Block().Dominates(m.header) {
+							return nil
+						}
+						if constant.BoolVal(k.Value) {
+							val |= 1 << uint(fa.Field)
+						} else {
+							val &^= 1 << uint(fa.Field)
+						}
+					}
+				}
+				found = true
+				break
+			}
 			n := 0
 			for _, ref := range *v.Referrers() {
 				st, ok := ref.(*ssa.Store)
@@ -2109,4 +2170,199 @@ func boolStateCell(f *ssa.Function, region map[*ssa.BasicBlock]bool) *ssa.Alloc 
 		}
 	}
 	return found
+}
+
+// fieldStateCell: the decoder's state kept in an integer field of its pointer receiver: every store into the field
+// in f is a constant, one of them resets it before the loop on every path (so what other calls left there does not
+// matter), the loop reads and writes it, and nothing f calls with the receiver stores into it. The field is then a
+// memory cell of the automaton whose domain is the set of constants stored.
+func fieldStateCell(c *Ctx, f *ssa.Function, header *ssa.BasicBlock, region map[*ssa.BasicBlock]bool) *fsmInput {
+	if f.Signature.Recv() == nil || len(f.Params) == 0 {
+		return nil
+	}
+	recv := f.Params[0]
+	pt, ok := recv.Type().Underlying().(*types.Pointer)
+	if !ok {
+		return nil
+	}
+	st, ok := pt.Elem().Underlying().(*types.Struct)
+	if !ok {
+		return nil
+	}
+	nl := naturalLoop(header)
+	var best *fsmInput
+	for k := 0; k < st.NumFields(); k++ {
+		bt, ok := st.Field(k).Type().Underlying().(*types.Basic)
+		if !ok || bt.Info()&types.IsInteger == 0 {
+			continue
+		}
+		dom := map[int64]bool{}
+		okField, inLoopStore, inLoopLoad, reset := true, false, false, false
+		var key ssa.Value
+		instrs(f, func(in ssa.Instruction) {
+			fa, ok := in.(*ssa.FieldAddr)
+			if !ok || fa.Field != k {
+				return
+			}
+			if !types.Identical(fa.X.Type(), recv.Type()) {
+				return
+			}
+			if fa.X != ssa.Value(recv) {
+				okField = false // the same field of another value of the type: aliasing is not excluded
+				return
+			}
+			if key == nil {
+				key = fa
+			}
+			for _, ref := range *fa.Referrers() {
+				switch x := ref.(type) {
+				case *ssa.Store:
+					if x.Addr != ssa.Value(fa) {
+						okField = false
+						return
+					}
+					v, isC := cInt(constVal(x.Val))
+					if !isC {
+						okField = false
+						return
+					}
+					dom[v] = true
+					if nl[x.Block()] {
+						inLoopStore = true
+					} else if x.Block().Dominates(header) {
+						reset = true
+					}
+				case *ssa.UnOp:
+					if region[x.Block()] {
+						inLoopLoad = true
+					}
+				case *ssa.DebugRef:
+				default:
+					okField = false // the field's address goes elsewhere
+				}
+			}
+		})
+		if !okField || !inLoopStore || !inLoopLoad || !reset || len(dom) < 2 || len(dom) > 16 || key == nil {
+			continue
+		}
+		// nothing the function calls with the receiver stores into the field
+		clean := true
+		for _, g := range c.calleesIn(f) {
+			if g.Blocks == nil || !c.inModule(g) || g == f {
+				continue
+			}
+			for _, h := range append([]*ssa.Function{g}, c.calleesIn(g)...) {
+				if h.Blocks == nil || !c.inModule(h) {
+					continue
+				}
+				instrs(h, func(in ssa.Instruction) {
+					if fa, ok := in.(*ssa.FieldAddr); ok && fa.Field == k && types.Identical(fa.X.Type(), recv.Type()) {
+						for _, ref := range *fa.Referrers() {
+							if s2, ok := ref.(*ssa.Store); ok && s2.Addr == ssa.Value(fa) {
+								clean = false
+							}
+						}
+					}
+				})
+			}
+		}
+		if !clean {
+			continue
+		}
+		if best != nil {
+			return nil // more than one such field: not handled (one memory cell)
+		}
+		kk := k
+		best = &fsmInput{v: key, dom: sortedKeys(dom), name: st.Field(k).Name(), cell: true,
+			cellMatch: func(addr ssa.Value) bool {
+				fa, ok := addr.(*ssa.FieldAddr)
+				return ok && fa.Field == kk && fa.X == ssa.Value(recv)
+			}}
+	}
+	return best
+}
+
+// packedFlagsCell: a local struct variable all of whose fields are booleans (at most four), used in the region only
+// through loads and stores of its fields (and assignments of its zero value): the flags of a decoder gathered in one
+// variable. It becomes one memory cell of the automaton, field k being bit k of the cell's value.
+func packedFlagsCell(f *ssa.Function, region map[*ssa.BasicBlock]bool) *fsmInput {
+	var found *ssa.Alloc
+	for _, b := range f.Blocks {
+		for _, in := range b.Instrs {
+			al, ok := in.(*ssa.Alloc)
+			if !ok {
+				continue
+			}
+			st, ok := al.Type().(*types.Pointer).Elem().Underlying().(*types.Struct)
+			if !ok || st.NumFields() < 2 || st.NumFields() > 4 {
+				continue
+			}
+			allBool := true
+			for k := 0; k < st.NumFields(); k++ {
+				if bt, ok := st.Field(k).Type().Underlying().(*types.Basic); !ok || bt.Kind() != types.Bool {
+					allBool = false
+				}
+			}
+			if !allBool {
+				continue
+			}
+			okUse, inRegion := true, false
+			for _, ref := range *al.Referrers() {
+				switch x := ref.(type) {
+				case *ssa.FieldAddr:
+					for _, r2 := range *x.Referrers() {
+						switch y := r2.(type) {
+						case *ssa.UnOp:
+						case *ssa.Store:
+							if y.Addr != ssa.Value(x) {
+								okUse = false
+							}
+						case *ssa.DebugRef:
+						default:
+							okUse = false
+						}
+						if region[r2.Block()] {
+							inRegion = true
+						}
+					}
+				case *ssa.Store:
+					if k, isC := x.Val.(*ssa.Const); x.Addr != ssa.Value(al) || !isC || k.Value != nil {
+						okUse = false
+					}
+				case *ssa.DebugRef:
+				default:
+					okUse = false
+				}
+			}
+			if okUse && inRegion {
+				if found != nil {
+					return nil
+				}
+				found = al
+			}
+		}
+	}
+	if found == nil {
+		return nil
+	}
+	nf := found.Type().(*types.Pointer).Elem().Underlying().(*types.Struct).NumFields()
+	var dom []int64
+	for v := int64(0); v < 1<<uint(nf); v++ {
+		dom = append(dom, v)
+	}
+	al := found
+	return &fsmInput{v: al, dom: dom, name: al.Comment, cell: true,
+		cellMatch: func(addr ssa.Value) bool {
+			if addr == ssa.Value(al) {
+				return true
+			}
+			fa, ok := addr.(*ssa.FieldAddr)
+			return ok && fa.X == ssa.Value(al)
+		},
+		cellBit: func(addr ssa.Value) int {
+			if fa, ok := addr.(*ssa.FieldAddr); ok && fa.X == ssa.Value(al) {
+				return fa.Field
+			}
+			return -1
+		}}
 }
